@@ -390,3 +390,153 @@ func errPolarity(p *Prog, fn *Fn) []errDrop {
 	})
 	return out
 }
+
+// discardedErrorsCannotOccur: an error result sent to the blank identifier must be one the call cannot
+// produce. For a first-party callee every return that carries an error has to sit behind a nil test of a
+// parameter, and the call site has to pass a value known to be non-nil there (tested on every path to the
+// call). The sites where failing is expected and handled through the value are tabled with their reason.
+func discardedErrorsCannotOccur(c *Ctx, r *Report, rule string, scope func(*Fn) bool, tabled map[string]string, consequence string) {
+	p := c.P
+	ne := NewNilEngine(p, c.CG)
+	nsite := 0
+	for _, fn := range p.Fns {
+		if fn.Orig != nil || fn.Body == nil || !p.firstParty(fn.Pkg.Types) || strings.HasSuffix(fn.Pkg.PkgPath, "/test") || !scope(fn) {
+			continue
+		}
+		var blanks []errDrop
+		for _, d := range errDrops(p, fn) {
+			if d.Kind == "blank" {
+				blanks = append(blanks, d)
+			}
+		}
+		if len(blanks) == 0 {
+			continue
+		}
+		var fl *Flow
+		for _, d := range blanks {
+			nsite++
+			var call *ast.CallExpr
+			walkNoLit(fn.Body, func(n ast.Node) bool {
+				if cx, ok := n.(*ast.CallExpr); ok && cx.Pos() == d.Pos && call == nil {
+					call = cx
+				}
+				return true
+			})
+			// failure handled through the value: the value received beside the error is tested for nil afterwards
+			if as, ok := p.parent[call].(*ast.AssignStmt); ok && call != nil && len(as.Lhs) >= 2 {
+				if vid, ok := as.Lhs[0].(*ast.Ident); ok && vid.Name != "_" {
+					vo := p.ObjOf(fn, vid)
+					tested := false
+					walkNoLit(fn.Body, func(n ast.Node) bool {
+						be, ok := n.(*ast.BinaryExpr)
+						if !ok || be.Pos() < call.End() {
+							return true
+						}
+						if x, _, ok := nilTest(condAtom{be, true}); ok {
+							if id, ok := ast.Unparen(x).(*ast.Ident); ok && p.ObjOf(fn, id) == vo && vo != nil {
+								tested = true
+							}
+						}
+						return true
+					})
+					if tested {
+						if why, ok := tabled[d.Call]; ok {
+							r.List("discarded error of %s in %s: the value received beside it is tested for nil (%s)", d.Call, fn.Name, why)
+						} else {
+							r.List("discarded error of %s in %s: the value received beside it is tested for nil", d.Call, fn.Name)
+						}
+						r.Hold(rule, r.Key(rule, fn, "discarded-error", d.Call), d.Pos, true, "the failure is handled through the value: "+vid.Name+" is tested for nil after the call")
+						continue
+					}
+				}
+			}
+			key := r.Key(rule, fn, "discarded-error", d.Call)
+			var callee *Fn
+			if call != nil {
+				if cf := p.Callee(fn, call); cf != nil {
+					callee = p.ByObj[cf]
+				}
+			}
+			if callee == nil || callee.Body == nil {
+				r.Violate(rule, key, d.Pos, fmt.Sprintf("the error of %s is discarded and the callee cannot be examined (not a first-party function): %s", d.Call, consequence))
+				continue
+			}
+			if fl == nil {
+				fl = ne.nilFlow(fn)
+				fl.Run()
+			}
+			var before Facts
+			fl.Visit(func(_ *cfgBlk, n ast.Node, f Facts) {
+				if before != nil {
+					return
+				}
+				walkNoLit(n, func(m ast.Node) bool {
+					if m == ast.Node(call) {
+						before = f.Clone()
+						if before == nil {
+							before = Facts{}
+						}
+					}
+					return true
+				})
+			})
+			nres := callee.Obj.Type().(*types.Signature).Results().Len()
+			bad := ""
+			var badPos token.Pos
+			nfail := 0
+			walkNoLit(callee.Body, func(n ast.Node) bool {
+				rs, ok := n.(*ast.ReturnStmt)
+				if !ok || bad != "" {
+					return true
+				}
+				if len(rs.Results) != nres {
+					if len(rs.Results) != 0 || nres == 0 {
+						return true
+					}
+					bad, badPos = "a bare return of named results", rs.Pos()
+					return true
+				}
+				if isNilIdent(rs.Results[nres-1]) {
+					return true
+				}
+				nfail++
+				// climb to a nil test of a parameter
+				excluded := false
+				for cur := ast.Node(rs); cur != nil && !excluded; cur = p.parent[cur] {
+					is, ok := p.parent[cur].(*ast.IfStmt)
+					if !ok || cur != ast.Node(is.Body) {
+						continue
+					}
+					for _, a := range splitCond(is.Cond, true) {
+						x, isNil, ok := nilTest(a)
+						if !ok || !isNil {
+							continue
+						}
+						id, ok := ast.Unparen(x).(*ast.Ident)
+						if !ok {
+							continue
+						}
+						po := p.ObjOf(callee, id)
+						for i := 0; i < len(call.Args); i++ {
+							if paramObjAny(callee, i) != po || po == nil {
+								continue
+							}
+							if _, akey, ok := p.PathKey(fn, call.Args[i]); ok && before["nn|"+akey] {
+								excluded = true
+							}
+						}
+					}
+				}
+				if !excluded {
+					bad, badPos = "the failing return at "+p.Pos(rs.Pos()), rs.Pos()
+				}
+				return true
+			})
+			_ = badPos
+			r.Check(bad == "", rule, key, d.Pos,
+				fmt.Sprintf("the discarded error of %s cannot occur: each of its %d failing returns is behind a nil test of a parameter that is known to be non-nil at this call", d.Call, nfail),
+				fmt.Sprintf("the error of %s is sent to the blank identifier, but %s is not ruled out by what is known at the call: the caller goes on with whatever was returned beside the error: %s", d.Call, bad, consequence))
+		}
+	}
+	r.Floor(rule, "error results sent to the blank identifier", nsite, 1)
+}
